@@ -82,6 +82,12 @@ func c08Run(e *Env) {
 	if t.Chance(1, 3) {
 		slots, nstart = 1, 1
 	}
+	// the connection's message pool recycles objects in two runs out of three, and in half of those the callback takes
+	// the notification over (Hijack) and gives it back to the pool before it returns - as an application is allowed to
+	if pc := []uint32{0, 1, 1024}[t.Choose(3)]; e.PoolCapacity == 0 && pc > 0 {
+		e.PoolCapacity = pc
+	}
+	takesOver := e.PoolCapacity > 0 && !e.Pool.Enabled && t.Chance(1, 2)
 	var w *CWorld
 	maxRetx, ticksTotal := 0, 0
 	if IsDatagram(tr) {
@@ -386,6 +392,11 @@ func c08Run(e *Env) {
 							e.Violate("C08.R2", "foreign-token-in-callback", "obs%d (token %x): callback invoked with token %x", o.idx, tok, ri.Token)
 						}
 						e.Notef("callback obs%d id=%d seq=%d", o.idx, id, seq)
+						if takesOver {
+							e.Probe("callback.tookNotificationOverAndReleasedIt")
+							n.Hijack()
+							w.API.ReleaseMessage(n)
+						}
 					})
 					o.call.mu.Lock()
 					o.obs = ob
